@@ -203,7 +203,7 @@ func C18() *engine.Scenario {
 		ID:    "C18",
 		Level: "fault_enumeration",
 		Setup: setupC18,
-		Rule:  "Operator -> SimDisk -> LoadKey -> Uploader/Agent. Each run does three things. (a) Table cell: one (key material, algorithm) cell out of {RSA, EC P-256/384/521, OKP Ed25519, oct; private and public halves} x {every signature and key-encryption algorithm name the JOSE library registers at run time, absent, none, unknown and near-miss names}; the key is built both in memory (jwk.ParseKey of the JWK object) and as a one-key JWKS file; Validate and LoadKey must accept exactly the cells the accept table {RSA+PS512, EC+ES512, OKP+EdDSA} allows. (b) Key set: a JWKS file of 0-4 keys with ids over a 3-letter alphabet (repeats allowed, some keys invalid) x requested id in alphabet + ''; LoadKey must return the key with the requested id / the only key, and fail for absent, ambiguous or invalid. Faults: the JWKS file is written through the simulated disk (lost write: absent or stale previous version, short write, torn sectors, bit flips, byte substitution, zeroed range, spliced files) or corrupted at field level (alg, kty, kid rewritten); under a fault LoadKey must not panic and must either fail or return a key that has the requested id and satisfies the accept table. (c) every 16th run generates key pairs with NewKeyPair (EdDSA, ES512; PS512 every 256th; HS512) - they must validate (HS512 must not) - and what private key i signs verifies with public j exactly when i == j. Fingerprint = (table cell | set shape x requested id | fault kind x outcome). Non-trivial = an accept cell, a multi-key set, or a fired fault.",
+		Rule:  "Operator -> SimDisk -> LoadKey -> Uploader/Agent. Each run does three things. (a) Table cell: one (key material, algorithm) cell out of {RSA, EC P-256/384/521, OKP Ed25519, oct; private and public halves} x {every signature and key-encryption algorithm name the JOSE library registers at run time, absent, none, unknown and near-miss names}; the key is built both in memory (jwk.ParseKey of the JWK object) and as a one-key JWKS file; Validate and LoadKey must accept exactly the cells the accept table {RSA+PS512, EC+ES512, OKP+EdDSA} allows. (b) Key set: a JWKS file of 0-4 keys with ids over a 3-letter alphabet (repeats allowed, some keys invalid) x requested id in alphabet + ''; LoadKey must return the key with the requested id / the only key, and fail for absent, ambiguous or invalid. Faults: the JWKS file is written through the simulated disk (lost write: absent or stale previous version, short write, torn sectors, bit flips, byte substitution, zeroed range, spliced files) or corrupted at field level (alg, kty, kid rewritten); under a fault LoadKey must not panic and must either fail or return a key that has the requested id and satisfies the accept table. (c) every 16th run generates key pairs with NewKeyPair (EdDSA, ES512; PS512 every 256th; HS512) - they must validate (HS512 must not) - and what private key i signs verifies with public j exactly when i == j (all pairs, across algorithms too), never under an empty key set. Fingerprint = (table cell | set shape x requested id | fault kind x outcome). Non-trivial = an accept cell, a multi-key set, or a fired fault.",
 		Real:  []string{"jwkutil.Validate", "jwkutil.LoadKey (os.Open of a real file, jwk.Parse, fromIdOrOnlyKey)", "jwkutil.NewKeyPair", "signature.Sign / signature.Verify", "jwx key parsing and validation"},
 		Stub:  []string{"Operator (key material from fixed fixtures; JWKS author)", "SimDisk (sector model) materialised as a real file in a per-process scratch directory", "accept table"},
 		Assume: []string{"structural validity of key material is jwx's key.Validate(); the table cells use structurally valid material", "a bit flip inside key material may legitimately yield another structurally valid key: under faults only 'fails, or has the requested id and satisfies the table' is required",
@@ -616,13 +616,23 @@ func runC18(c *engine.Ctx) {
 				c.Fail("C18.generate", pi.alg.String(), "signing with a generated %s key failed: %v", pi.alg, serr)
 			}
 			for j, pj := range pairs {
-				if pj.alg != pi.alg {
-					continue
-				}
+				// every pair, across algorithms too: a key of another algorithm is just another wrong key
 				var verr error
 				c.Guard("C18.panic", "Verify with generated "+pi.alg.String(), func() { verr = signature.Verify(context.Background(), sig, pj.pub, step) })
 				if (verr == nil) != (i == j) {
-					c.Fail("C18.sign-verify", pi.alg.String(), "signed with generated private key #%d, verified with public key #%d: err=%v (want success iff same pair)", i, j, verr)
+					cls := pi.alg.String()
+					if pj.alg != pi.alg {
+						cls += " signature under a " + pj.alg.String() + " key"
+					}
+					c.Fail("C18.sign-verify", cls, "signed with generated private key #%d (%s), verified with public key #%d (%s): err=%v (want success iff same pair)", i, pi.alg, j, pj.alg, verr)
+				}
+			}
+			// a key set without keys verifies nothing
+			{
+				var verr error
+				c.Guard("C18.panic", "Verify with an empty key set", func() { verr = signature.Verify(context.Background(), sig, jwk.NewSet(), step) })
+				if verr == nil {
+					c.Fail("C18.sign-verify", "empty key set", "Verify returned nil for a %s signature under a key set that holds no keys", pi.alg)
 				}
 			}
 			// and never under the committed fixture key of the same algorithm
